@@ -1,5 +1,6 @@
 import Verif.Proofs.NumRoundLen
 import Verif.Proofs.NumHolds
+import Verif.Proofs.NumDecRound
 /-!
 # C08 — Number/Decimal shortening keeps the numeric value
 
@@ -8,7 +9,7 @@ Property theorems only.  Models: `Verif.Model.Num.number`, `Verif.Model.Num.deci
 -/
 namespace Verif.Props.C08
 open Verif.Model.Num Verif.Proofs.Num
-open Verif.Spec.Num (isNumber isDecimal numVal trigExpNear holds)
+open Verif.Spec.Num (isNumber isDecimal numVal trigExpNear holds WithinHalfUnit)
 
 /-- (a) at precision ≤ 0 the result of `Number` is never longer than its input — for every byte string -/
 theorem number_length_exact (s : List Char) (p : Int) (hp : p ≤ 0) : (number s p).length ≤ s.length :=
@@ -99,6 +100,15 @@ theorem decimal_grammar (s : List Char) (p : Int) (hs : isDecimal s = true) :
   rcases decimal_lex l hwf hex p with h | ⟨l', h1, h2, h3, _, _⟩
   · rw [h]; exact isDecimal_str l hwf hex
   · rw [← h3]; exact isDecimal_str l' h1 h2
+
+/-- (d) with a precision `p > 0` the result of `Decimal` is within half a unit of the `p`-th significant
+    digit of the input value (`WithinHalfUnit`: `|w − v| ≤ ½·10^(L−p+1)` where `10^L ≤ |v| < 10^(L+1)`;
+    only fraction digits are dropped, so a long integer part is returned exactly) -/
+theorem decimal_round (s : List Char) (p : Int) (hs : isDecimal s = true) (hp : 0 < p) :
+    ∃ v w, numVal s = some v ∧ numVal (decimal s p) = some w ∧ WithinHalfUnit s p v w := by
+  obtain ⟨l, hwf, rfl, hex⟩ := exists_lex_of_isDecimal hs
+  obtain ⟨w, h1, h2⟩ := decimal_round_lex l hwf hex p hp
+  exact ⟨l.val, w, numVal_str l hwf, h1, h2⟩
 
 example : isDecimal "-0099.9500".toList = true := by decide
 example : decimal "99.5".toList 2 = "100".toList ∧ decimal "999.5".toList 3 = "1000".toList := by decide
